@@ -48,6 +48,8 @@ FamilyConfigs(p) ==
            \cup Cfgs({Omit, Obj(2000, UNSET, 500)}, Both, {<<b, Omit>> : b \in FewBad})
       [] p = "shared" ->      \* two requests sharing one pool Timeout
            Cfgs(AllValid, {"http"}, {<<Omit, Omit>>})
+      [] p = "sameobj" ->     \* the caller passes the very same Timeout object to both requests
+           Cfgs({Omit, Obj(500, 500, 500)}, {"http"}, {<<r, r>> : r \in Few})
       [] p = "shared_https" ->
            Cfgs(AllValid, {"https"}, {<<Omit, Omit>>})
       [] p = "mixed" ->       \* two requests, placements mixed (equal sources = the caller's same object)
@@ -77,7 +79,7 @@ DevF   == {"mergepool"}
 DevG   == {"noreapply"}
 PA == {"pool", "request", "invalid"}
 PQ == {"pool", "request_q", "invalid"}
-PB == {"shared"}
+PB == {"shared", "sameobj"}
 PC == {"shared", "shared_https", "mixed", "mixed_https"}
 PD == {"three"}
 PT == {"tiny"}
